@@ -9,7 +9,8 @@ Property theorems about the executable model `Sonic.Model.Pool` of `MemoryPoolAl
 `ops : List Op` from the initial state: `run ops = ops.foldl (fun s op => (step s op).1) State.init`
 (`Op`, `step`, `run` are defined in the model file because the line-protocol driver executes the very
 same `step`).  `step s op` first checks the documented preconditions `op.pre s` (a decidable `Bool`:
-slot empty / live / not moved-from, `dst ≠ src` for move-assignment, the block exists, i.e. was handed
+slot empty / live / not moved-from, `dst ≠ src` for move-assignment, both handles of an assignment have
+the same `ChunkPolicy` (the same C++ type), the block exists, i.e. was handed
 out since its pool's last `Clear` and its pool is alive, `oldsize` = the size it was last requested
 with, all sizes `< 2^32`, user buffer large enough); an op violating them is **skipped**: the state is
 unchanged and the answer is `Out.skipped` (`bad-op`).
